@@ -341,6 +341,16 @@ pub assume_specification<P: core::str::pattern::Pattern>[ str::starts_with ](s: 
     ensures r == is_prefix(pat_text(p), s@);
 pub broadcast proof fn axiom_pat_string(p: &String) ensures #[trigger] pat_text::<&String>(p) == p@ { admit(); }
 pub broadcast proof fn axiom_pat_str(p: &str) ensures #[trigger] pat_text::<&str>(p) == p@ { admit(); }
+// slice::swap / slice::contains (std)
+pub assume_specification<T>[ <[T]>::swap ](s: &mut [T], a: usize, b: usize)
+//%if A
+    requires a < old(s)@.len(), b < old(s)@.len()
+    ensures final(s)@ == old(s)@.update(a as int, old(s)@[b as int]).update(b as int, old(s)@[a as int]);
+//%else
+    ensures a < old(s)@.len() && b < old(s)@.len(), final(s)@ == old(s)@.update(a as int, old(s)@[b as int]).update(b as int, old(s)@[a as int]);
+//%endif
+pub assume_specification<T: PartialEq>[ <[T]>::contains ](s: &[T], x: &T) -> (r: bool)
+    ensures T::obeys_eq_spec() ==> r == exists|i: int| 0 <= i < s@.len() && (#[trigger] s@[i]).eq_spec(x);
 // Option::filter(p): keeps the value exactly when the predicate accepts it
 pub assume_specification<T, P: FnOnce(&T) -> bool>[ Option::<T>::filter ](o: Option<T>, p: P) -> (r: Option<T>)
     requires o is Some ==> p.requires((&o->Some_0,)),
